@@ -96,6 +96,20 @@ Theorem C10_print : forall n a, c10_wf n a -> c10_hexval (c10_print a) = c10_val
 Proof. exact P_print. Qed.
 Print Assumptions C10_print.
 
+(* mixed operations with a built-in unsigned on either side (x + u, u + x, ...): the temporary built
+   from u represents u mod 2^w and the operation is again arithmetic modulo 2^w *)
+Theorem C10_mixed : forall n2 n a u, c10_wf n a -> u < 2 ^ 64 -> (n <= n2)%nat ->
+  let t := c10_assign n u in
+  c10_wf n t /\ c10_val t = u mod 2 ^ c10_spec_width n /\
+  same_val n (c10_add a t) (c10_spec_binop n OpAdd (c10_val a) (c10_val t)) /\
+  same_val n (c10_add t a) (c10_spec_binop n OpAdd (c10_val t) (c10_val a)) /\
+  same_val n (c10_sub a t) (c10_spec_binop n OpSub (c10_val a) (c10_val t)) /\
+  same_val n (c10_sub t a) (c10_spec_binop n OpSub (c10_val t) (c10_val a)) /\
+  same_val n (c10_mul n2 a t) (c10_spec_binop n OpMul (c10_val a) (c10_val t)) /\
+  same_val n (c10_mul n2 t a) (c10_spec_binop n OpMul (c10_val t) (c10_val a)).
+Proof. exact P_mixed. Qed.
+Print Assumptions C10_mixed.
+
 (* non-vacuity: concrete non-trivial operands satisfy the hypotheses and exercise carries *)
 Example C10_nonvacuous :
   c10_wf 2 [65535; 65535] /\ c10_wf 2 [1; 0] /\ c10_add [65535; 65535] [1; 0] = [0; 0] /\
